@@ -26,6 +26,7 @@ fn v(sig: &str, msg: String) -> Violation {
     Violation::new(format!("C15/{sig}"), msg)
 }
 
+#[derive(Clone)]
 pub struct VecParser(pub Vec<parser::Result<gherkin::Feature>>);
 
 impl Parser<()> for VecParser {
@@ -38,6 +39,7 @@ impl Parser<()> for VecParser {
 }
 
 /// A runner that only records the features it is handed.
+#[derive(Clone)]
 pub struct RecordingRunner(pub Rc<RefCell<Vec<parser::Result<gherkin::Feature>>>>);
 
 impl Runner<W> for RecordingRunner {
@@ -205,6 +207,8 @@ pub fn check(c: &Case) -> Out {
     let store = Rc::new(RefCell::new(vec![]));
     let opts = cli::Opts::<cli::Empty, cli::Empty, cli::Empty, cli::Empty> { re_filter: name_re.clone(), tags_filter: c.tags.clone(), parser: cli::Empty, runner: cli::Empty, writer: cli::Empty, custom: cli::Empty };
     let cuc = Cucumber::<W, _, (), _, _, cli::Empty>::custom(VecParser(c.features.iter().cloned().map(Ok).collect()), RecordingRunner(Rc::clone(&store)), Rec::default()).with_cli(opts);
+    // a configured `Cucumber` may be cloned before it is run: every other case runs the clone
+    let cuc = if c.features.len() % 2 == 1 { cuc.clone() } else { cuc };
     let cm = c.closure_mod;
     let res = std::panic::catch_unwind(std::panic::AssertUnwindSafe(|| match cm {
         Some((m, k)) => {
@@ -217,9 +221,13 @@ pub fn check(c: &Case) -> Out {
     if res.is_err() {
         viol.push(v("panic", "filter_run panicked".into()));
     }
-    let got: Vec<gherkin::Feature> = store.borrow().iter().filter_map(|r| r.as_ref().ok().cloned()).collect();
+    // (A feature in which nothing was accepted has nothing the property speaks about: whether the
+    // runner is still handed its empty shell is left open, so such features are not compared.)
+    let non_empty = |f: &gherkin::Feature| !f.scenarios.is_empty() || f.rules.iter().any(|r| !r.scenarios.is_empty());
+    let got: Vec<gherkin::Feature> = store.borrow().iter().filter_map(|r| r.as_ref().ok().cloned()).filter(|f| non_empty(f)).collect();
+    let expected: Vec<gherkin::Feature> = expected.into_iter().filter(|f| non_empty(f)).collect();
     if got.len() != expected.len() {
-        viol.push(v("feature-count", format!("runner received {} features, {} were parsed", got.len(), expected.len())));
+        viol.push(v("feature-count", format!("runner received {} features with scenarios, the filter leaves scenarios in {} of the parsed ones", got.len(), expected.len())));
     } else {
         for (g, e) in got.iter().zip(&expected) {
             if g != e {
